@@ -353,9 +353,31 @@ def build_bx():
     return os.path.join(tgt, 'release', 'bx'), ''
 
 
+def _tree_hash(extra):
+    """hash of every source file a native bx run depends on (the truc crates of /repo, bx itself)"""
+    h = hashlib.sha256()
+    for root_dir in (os.path.join(REPO, 'truc', 'src'), os.path.join(REPO, 'truc_runtime', 'src'), os.path.join(VERIF, 'bx', 'src')):
+        for root, dirs, files in os.walk(root_dir):
+            dirs.sort()
+            for f in sorted(files):
+                fp = os.path.join(root, f)
+                h.update(fp.encode())
+                h.update(open(fp, 'rb').read())
+    for f in (os.path.join(REPO, 'Cargo.lock'), os.path.join(REPO, 'truc', 'Cargo.toml'), os.path.join(VERIF, 'bx', 'Cargo.toml')):
+        h.update(open(f, 'rb').read())
+    h.update(json.dumps(extra, sort_keys=True).encode())
+    return h.hexdigest()[:24]
+
+
 def run_bx(name, strategy, bounds, tier, max_viol=20):
     r = UnitResult(name, 'bx (native bounded-exhaustive execution of the strategy contract)')
     t0 = time.time()
+    # deterministic native execution: the verdict for unchanged sources and bounds is reused
+    ckey = _tree_hash({'unit': name, 'strategy': strategy, 'bounds': bounds, 'v': max_viol})
+    cfile = os.path.join(BUILD, 'bx-cache', '%s-%s.json' % (name, ckey))
+    if os.path.exists(cfile) and not os.environ.get('VERIF_NOCACHE'):
+        j = json.load(open(cfile))
+        return _bx_result(r, j, strategy, bounds, t0, cached=True)
     exe, err = build_bx()
     if exe is None:
         r.status, r.reason = INCONCLUSIVE, 'bx does not build against the current tree: %s' % err
@@ -376,7 +398,15 @@ def run_bx(name, strategy, bounds, tier, max_viol=20):
         os.remove(outp)
     except OSError:
         pass
-    r.extra = j
+    os.makedirs(os.path.dirname(cfile), exist_ok=True)
+    json.dump(j, open(cfile, 'w'))
+    return _bx_result(r, j, strategy, bounds, t0, cached=False)
+
+
+def _bx_result(r, j, strategy, bounds, t0, cached):
+    r.extra = dict(j)
+    r.extra['cached'] = cached
+    r.wall_s = time.time() - t0
     r.obligations = j['evaluations']
     r.discharged = j['evaluations'] - j['violations_total']
     r.functions = [{'kind': 'fn', 'selector': 'fn %s' % s, 'file': 'truc/src/record/definition/builder/native/variant/%s.rs' % ('dummy' if s.startswith('append') else s), 'line': 0,
